@@ -1,6 +1,14 @@
-"""C12 - WebSocket codec (see vlib/ws_props.py)."""
-from .. import ws_props
+"""C12 - WebSocket codec (see vlib/ws_props.py) plus the end-to-end leg (vlib/ws_e2e.py)."""
+import json
+
+from .. import ws_props, ws_e2e
 
 
 def run(res, scratch, *, tier, seed, replay):
+    if replay:
+        rp = json.load(open(replay))
+        if rp.get("leg") == "e2e":
+            return ws_e2e.run(res, scratch, "C12", tier, seed, only=rp["script"])
     ws_props.run_focus(res, scratch, "C12", tier=tier, seed=seed, replay=replay)
+    if not replay:
+        ws_e2e.run(res, scratch, "C12", tier, seed)
